@@ -40,7 +40,7 @@ func getData(data []byte, start uint64, size uint64) []byte {
 		start = length
 	}
 	end := start + size
-	if end > length {
+	if end < start || end > length { // start+size may wrap around
 		end = length
 	}
 	return common.RightPadBytes(data[start:end], int(size))
